@@ -12,6 +12,7 @@ mkdir -p $D && cp $SD/patch.diff $SD/demo.py $SD/meta.json $D/
 git -C /repo apply $SD/patch.diff || exit 1
 for c in "$@"; do ./check $c 2>&1 | grep "VIOLATION\|^\[C"; done
 git -C /repo checkout -- .
+for c in "$@"; do ./check $c >/dev/null 2>&1; done   # evidence files come from the clean tree again
 /venv/bin/python - <<PY
 import json,glob
 for f in sorted(glob.glob('/verif/replays/*.json')):
